@@ -184,6 +184,8 @@ func (m *Machine) Do(s *Step) (fail bool, ret []Text, errc string) {
 			sp.Sort()
 		case "sortabs":
 			sp.SortAbsolute()
+		case "iterappend":
+			sp.Iterate(func(p *url.NameValuePair) { p.Value += b })
 		default:
 			panic("unknown list op " + s.N)
 		}
